@@ -252,6 +252,11 @@ def gen_spec(rng, nmax=12):
             Xt.append([rng.random() for _ in range(d)])
     mean = None if rng.random() < 0.3 else rng.uniform(-2, 2)
     cs2 = None if rng.random() < 0.6 else loguniform(rng, 1e-3, 1e3) if box else loguniform(rng, 0.2, 5)
+    if rng.random() < 0.06:
+        # hyper-parameters AT the lower end of their boxes (the bound itself, just above, within 0.1%)
+        cs = 1e-3 * rng.choice([1.0, 1.0 + 1e-6, 1.0 + 5e-4])
+        if rng.random() < 0.5:
+            ibs[rng.randrange(len(ibs))] = 1e-4 * rng.choice([1.0, 1.0 + 1e-6, 1.0 + 5e-4])
     directed = rng.random()
     if directed < 0.05 and n >= 2:
         # variance floor: tiny noise, large scale, long length scales, test points = training points, so that
@@ -796,6 +801,11 @@ def run_case(ctx, spec, cases_k, cases_g, meta, kmeta, jit_cases, jit_meta, jt_c
         # the noise went through the encoding once more: allow its relative change
         same = abs(float(back["noise_variance"]) - noise) <= 8 * EPS * noise and all(
             abs(float(back["kernel_" + k_]) - float(v)) <= 8 * EPS * abs(float(v)) for k_, v in got.items())
+        if not same:
+            viol("GaussianProcessRegression.set_params does not install the requested values: requested noise %r / "
+                 "kernel %s, get_params returns noise %r / kernel %s"
+                 % (noise, {k_: float(v) for k_, v in got.items()}, float(back["noise_variance"]),
+                    {k_: float(back["kernel_" + k_]) for k_ in got}), "param_roundtrip")
         if same and not (np.all(np.abs(gm - mean_ref[:, 0]) <= 2 * tolM_ref + 1e-9 * tolM_ref)
                          and np.all(np.abs(gv - var_ref) <= 2 * tolV_ref)):
             viol("GaussianProcessRegression.predict deviates from the dense expression", "gpr_predict")
